@@ -212,9 +212,14 @@ class HamiltonianChain(MarkovChain):
         p = self.posterior(t) * self.inv_temp
         G = zeros(self.n_parameters)
         for i in range(self.n_parameters):
-            delta = zeros(self.n_parameters) + 1
-            delta[i] += 1e-5
-            G[i] = (self.posterior(t * delta) * self.inv_temp - p) / (t[i] * 1e-5)
+            # relative step, with an absolute floor so that coordinates at
+            # (or very close to) zero do not produce a zero-width difference
+            dt = t[i] * 1e-5
+            if abs(dt) < 1e-8:
+                dt = 1e-8
+            t_step = t.copy()
+            t_step[i] += dt
+            G[i] = (self.posterior(t_step) * self.inv_temp - p) / dt
         return G
 
     def get_last(self) -> ndarray:
